@@ -9,6 +9,9 @@ of the table `FUNS` is located by name inside its `impl` block and its body is t
 by statement / arm by arm.  A function outside the grammar falls back (that function only) to an
 alias of the model definition and is reported UNTRANSLATED.
 
+Elaboration guard: when the generated text is new it is elaborated once (`lake env lean`); a definition with an
+error (e.g. Lean cannot show that a changed recursion terminates) falls back to its alias, status `… does not elaborate`.
+
 Conventions
   * a function that can panic (`panic!`, `assert!`, `unwrap`, indexing a `Vec` of trees) is *partial*:
     its Lean type is `… → Option T`, `none` = panic (as in the model); calls of partial functions are
@@ -37,6 +40,8 @@ Mapping table (trusted, kept small)
   v[i] = e ↦ v.set i e      v.push(e) / v.push_back(e) ↦ v ++ [e]     v.len(), it.count() ↦ v.length
   v.is_empty() ↦ v.isEmpty      o.is_none() ↦ o.isNone     a.or(b) ↦ a.or b     vec![c; n] ↦ List.replicate n c
   s.split_at(n) ↦ (s.take n, s.drop n)      it.partition(p) ↦ (it.filter p, it.filter (!p ·))
+  o.map(f) / o.and_then(f) / o.map_or(d, f) / o.unwrap_or(d) ↦ Option.map / Option.bind / Option.elim / Option.getD
+  it.filter(p) / any(p) / all(p) / rev() / take(n) / skip(n) ↦ List.filter / any / all / reverse / take / drop   (closures `|x| e`, total bodies)
   usize::max(a, b) ↦ max a b      it.max() ↦ Tr.listMax? it      o.unwrap() ↦ bind (partial)
   HashSet::from([x]) ↦ [x]      &a | &b (HashSet union) ↦ a ++ b      [a, b].concat() ↦ a ++ b     vec![x] ↦ [x]
   VarSet::new() ↦ []   s.insert(x) ↦ VarSet.insert x s   a.union(b) ↦ VarSet.union a b
@@ -46,6 +51,9 @@ Mapping table (trusted, kept small)
   InOrderDepthFirstIter { v } ↦ v   (its `next` is `pop_front`)
   VTreeManager fields ↦ VT.VTreeManager fields; the field `lca: LeastCommonAncestor` is the pair
     (`euler` = contents of `seg_tree`, `indexMap`); `self.seg_tree.query(l, r)` ↦ `VT.rangeMin m.euler l r` (half-open minimum)
+  a field of `VTreeManager` that the model does not have is accepted when `new` initialises it with `SegmentPoint::build(v, Min)` and
+    `v` is the vector of a model field (`tree.dfs_to_bfs_mapping()` ↦ `dfsToBfs`, …): `self.f.query(l, r)` ↦ `rangeMin m.<that field> l r`;
+    model fields the Rust literal no longer mentions keep the model's content (sound for managers built by `new`, the only constructor)
   tree.dfs_to_bfs_mapping() / bfs_to_dfs_mapping() ↦ VT.VTree.dfsToBfs / bfsToDfs;  LeastCommonAncestor::new(&t) ↦ Tr.lcaNew t
     (node identity by address ↦ root path: not translated, tied by differential testing only)
   panic!(..) ↦ none     assert!(c); rest ↦ if c then rest else none     debug_assert!(..) ↦ skipped (release build)
@@ -133,6 +141,7 @@ PATH_OWNER = {"VTree": ["VTree", "BTree"], "BTree": ["BTree", "VTree"], "DTree":
 MGR_FIELDS = {"tree": ("tree", "vtree"), "dfs_to_bfs": ("dfsToBfs", "lnat"), "bfs_to_dfs": ("bfsToDfs", "lnat"),
               "vtree_index": ("vtreeIndex", "lnat"), "index_lookup": ("indexLookup", "lvtree")}
 LCA_FIELDS = {"index_map": ("indexMap", "lnat")}
+DERIVED = {}    # Rust field of VTreeManager that is not in the model -> model field holding the vector it is a range-minimum table of
 
 
 def lookup_fn(owners, name):
@@ -508,6 +517,26 @@ def E_mcall(a, cx):
         x, body = closure1(args[0], cx, et)
         v = paren(E(recv, cx))
         return "(%s.filter (fun %s => %s), %s.filter (fun %s => !%s))" % (v, x, body, v, x, paren(body))
+    if name == "map" and len(args) == 1 and tyof(recv, cx) in ("ovtree", "onat"):
+        x, body = closure1(args[0], cx, {"ovtree": "vtree", "onat": "nat"}[tyof(recv, cx)])
+        return "Option.map (fun %s => %s) %s" % (x, body, paren(E(recv, cx)))
+    if name == "and_then" and len(args) == 1 and tyof(recv, cx) in ("ovtree", "onat"):
+        x, body = closure1(args[0], cx, {"ovtree": "vtree", "onat": "nat"}[tyof(recv, cx)])
+        return "Option.bind %s (fun %s => %s)" % (paren(E(recv, cx)), x, body)
+    if name == "map_or" and len(args) == 2 and tyof(recv, cx) in ("ovtree", "onat"):
+        x, body = closure1(args[1], cx, {"ovtree": "vtree", "onat": "nat"}[tyof(recv, cx)])
+        return "Option.elim %s %s (fun %s => %s)" % (paren(E(recv, cx)), paren(E(args[0], cx)), x, body)
+    if name == "unwrap_or" and len(args) == 1:
+        return "Option.getD %s %s" % (paren(E(recv, cx)), paren(E(args[0], cx)))
+    if name in ("filter", "any", "all") and len(args) == 1:
+        et = ELEM.get(tyof(recv, cx))
+        x, body = closure1(args[0], cx, et)
+        return "List.%s (fun %s => %s) %s" % (name, x, body, paren(E(recv, cx))) if name == "filter" else \
+            "List.%s %s (fun %s => %s)" % (name, paren(E(recv, cx)), x, body)
+    if name == "rev" and not args:
+        return "List.reverse %s" % paren(E(recv, cx))
+    if name in ("take", "skip") and len(args) == 1:
+        return "List.%s %s %s" % ("take" if name == "take" else "drop", paren(E(args[0], cx)), paren(E(recv, cx)))
     if name == "map" and len(args) == 1:
         et = ELEM.get(tyof(recv, cx))
         x, body = closure1(args[0], cx, et)
@@ -515,6 +544,9 @@ def E_mcall(a, cx):
     if name == "query" and len(args) == 2 and strip_refs(recv)[0] == "field" and strip_refs(recv)[2] == "seg_tree" \
             and strip_refs(strip_refs(recv)[1]) == ("var", "self") and cx.fn.owner == "LeastCommonAncestor":
         return "rangeMin %s.euler %s %s" % (cx.selfname, paren(E(args[0], cx)), paren(E(args[1], cx)))
+    if name == "query" and len(args) == 2 and strip_refs(recv)[0] == "field" and strip_refs(recv)[2] in DERIVED \
+            and strip_refs(strip_refs(recv)[1]) == ("var", "self") and cx.fn.owner == "VTreeManager":
+        return "rangeMin %s.%s %s %s" % (cx.selfname, DERIVED[strip_refs(recv)[2]], paren(E(args[0], cx)), paren(E(args[1], cx)))
     if name == "lca" and strip_refs(recv)[0] == "field" and strip_refs(recv)[2] == "lca" and cx.fn.owner == "VTreeManager" \
             and strip_refs(strip_refs(recv)[1]) == ("var", "self"):
         g = lookup_fn(["LeastCommonAncestor"], "lca")
@@ -532,10 +564,35 @@ def E_struct(a, cx):
     if len(fs) != len(a[2]):
         raise Untranslatable("duplicate field")
     if name == "VTreeManager":
-        if set(fs) != set(MGR_FIELDS) | {"lca"}:
-            raise Untranslatable("VTreeManager literal fields")
+        known = set(MGR_FIELDS) | {"lca"}
         # evaluation order of the literal = textual order
-        vals = {f: E(e, cx) for f, e in a[2]}
+        vals = {}
+        for f, e in a[2]:
+            if f in known:
+                vals[f] = E(e, cx)
+        if "tree" not in vals or "vtree_index" not in vals or "index_lookup" not in vals:
+            raise Untranslatable("VTreeManager literal fields")
+        tree_t = paren(vals["tree"])
+        canon = {"dfs_to_bfs": "VTree.dfsToBfs %s" % tree_t, "bfs_to_dfs": "VTree.bfsToDfs %s" % tree_t,
+                 "lca": "Tr.lcaNew %s" % tree_t}
+        for f, e in a[2]:
+            if f in known:
+                continue
+            # a field the model does not have: accepted when it is a range-minimum table over a vector the model stores
+            e0 = strip_refs(e)
+            if not (e0[0] == "call" and e0[1][0] == "path" and e0[1][1] == ["SegmentPoint", "build"] and len(e0[2]) == 2
+                    and strip_refs(e0[2][1]) == ("var", "Min")):
+                raise Untranslatable("VTreeManager field %s is not in the model" % f)
+            sub = cx.sub()
+            sub.binds = None
+            t = E(e0[2][0], sub)
+            hit = [k for k in ("dfs_to_bfs", "bfs_to_dfs") if paren(canon[k]) == paren(t)]
+            if not hit:
+                raise Untranslatable("VTreeManager field %s: table over a vector the model does not store" % f)
+            DERIVED[f] = MGR_FIELDS[hit[0]][0]
+        for f in ("dfs_to_bfs", "bfs_to_dfs", "lca"):
+            # a model field the Rust no longer stores keeps the model's content (it is only reachable through DERIVED)
+            vals.setdefault(f, canon[f])
         parts = ["%s := %s" % (MGR_FIELDS[f][0], vals[f]) for f in MGR_FIELDS]
         parts.append("euler := %s.1" % paren(vals["lca"]))
         parts.append("indexMap := %s.2" % paren(vals["lca"]))
@@ -1292,8 +1349,67 @@ def write_if_changed(path, text):
         open(path, "w").write(text)
 
 
+def elaboration_errors(text):
+    """elaborate the candidate file once (`lake env lean`); returns [(line, message)] of the errors, None if lean cannot be run"""
+    import subprocess
+    lean_dir = os.path.join(ROOT, "lean")
+    tmp = OUT[:-5] + "_check.lean"
+    try:
+        open(tmp, "w").write(text)
+        subprocess.run(["lake", "build", "RsddModel.Lemmas.TieVTreeAux"], cwd=lean_dir, capture_output=True, text=True, timeout=900)   # imports up to date
+        r = subprocess.run(["lake", "env", "lean", os.path.relpath(tmp, lean_dir)], cwd=lean_dir, capture_output=True,
+                           text=True, timeout=900)
+    except Exception:  # noqa: BLE001
+        return None
+    finally:
+        try:
+            os.remove(tmp)
+        except OSError:
+            pass
+    errs = []
+    for m in re.finditer(r"^[^\n:]*:(\d+):(\d+): error:? ?(.*)$", r.stdout + r.stderr, re.M):
+        errs.append((int(m.group(1)), m.group(3).strip()))
+    if r.returncode != 0 and not errs:
+        return None
+    return errs
+
+
+def guarded_write(keys, blocks, status, fallback_of, footer):
+    """assemble HEADER + blocks + footer; when the text is new, elaborate it; a definition on an error line falls
+    back to its alias (status `… does not elaborate`), repeated until the file elaborates"""
+    for _round in range(len(keys) + 1):
+        text, ranges, line = HEADER, [], HEADER.count("\n") + 1
+        for k, b in zip(keys, blocks):
+            n = b.count("\n") + 1
+            ranges.append((line, line + n - 1, k))
+            text += b + "\n"
+            line += n
+        text += footer
+        old = open(OUT).read() if os.path.exists(OUT) else None
+        if old == text:
+            return
+        errs = elaboration_errors(text)
+        if not errs:
+            break
+        bad = {}
+        for ln, msg in errs:
+            for lo, hi, k in ranges:
+                if lo <= ln <= hi and k not in bad:
+                    bad[k] = msg
+        bad = {k: m for k, m in bad.items() if "UNTRANSLATED" not in status[k]}
+        if not bad:
+            break
+        for i, k in enumerate(keys):
+            if k in bad:
+                msg = "does not elaborate: " + bad[k][:160]
+                blocks[i] = fallback_of(k, msg)
+                status[k] = "UNTRANSLATED (translator route not available, tied by correspondence only): " + msg
+    write_if_changed(OUT, text)
+
+
 def main():
     status, defs, srcs = {}, [], {}
+    DERIVED.clear()
     for f in FUNS:
         try:
             if f.file not in srcs:
@@ -1312,7 +1428,8 @@ def main():
             msg = "%s: %s" % (type(e).__name__, e) if not isinstance(e, Untranslatable) else str(e)
             defs.append(fallback(f, msg))
             status[f.key] = "UNTRANSLATED (translator route not available, tied by correspondence only): %s" % msg
-    write_if_changed(OUT, HEADER + "\n".join(defs) + "\nend Gen.VT\n")
+    byk = {f.key: f for f in FUNS}
+    guarded_write([f.key for f in FUNS], defs, status, lambda k, msg: fallback(byk[k], msg), "end Gen.VT\n")
     return status
 
 
